@@ -307,6 +307,17 @@ func doFault(sc scenario, f *fixture, c1 *labClient, rc rpclab.RawConn) (desc st
 				res, err, p = rpclab.Call(c1.Client, faultTimeout, "echo", "IOBOOM"+strconv.Itoa(kind))
 			case "missing-method-panic":
 				res, err, p = rpclab.Call(c1.Client, faultTimeout, "nosuchboom", kind)
+			case "function-panic-under-the-execute-timeout-plugin":
+				res, err, p = rpclab.Call(c1.Client, faultTimeout, "boom", kind)
+			case "error-result-whose-Error-method-panics":
+				res, err, p = rpclab.Call(c1.Client, faultTimeout, "nilerr")
+			case "self-containing-argument-with-the-log-plugin":
+				l := []interface{}{nil}
+				l[0] = &l // encoded in reference mode as a1{r0;}: a list that contains itself
+				res, err, p = rpclab.Call(c1.Client, faultTimeout, "id", &l)
+				if len(res) == 1 {
+					res = []interface{}{"(a value came back)"}
+				}
 			case "wrong-type-arguments":
 				w := wrongTypeArgs[sc.Fault]
 				res, err, p = rpclab.Call(c1.Client, faultTimeout, w.fn, w.args...)
@@ -503,6 +514,11 @@ func scenarios(thorough bool) []scenario {
 						add("server", "call", class, k)
 					}
 				}
+				for _, k := range panicKinds[:2] {
+					add("server", "call", "function-panic-under-the-execute-timeout-plugin", k)
+				}
+				add("server", "call", "error-result-whose-Error-method-panics", "nil-receiver")
+				add("server", "call", "self-containing-argument-with-the-log-plugin", "a1{r0;}")
 				for _, k := range sortedKeys(wrongTypeArgs) {
 					add("server", "call", "wrong-type-arguments", k)
 				}
